@@ -29,3 +29,5 @@ open RV.C20
 #print axioms context_argument_reaches_endpoint
 #print axioms commit_reaches_endpoint_as_operations
 #print axioms pattern_read_reaches_endpoint
+#print axioms long_transaction_stays_queued
+#print axioms add_graph_resends_create
